@@ -303,6 +303,17 @@ def wire_job(c):
             j['hostile'] = d['hostile']
         j['argv'] = ['--continue']
         j['prefiles'] = {'f.test/h.txt': 'hh'}
+    elif ctx == 'ftpwarc':
+        d = G.ftp_warc_classes()[cls]
+        for k_ in ('hostile', 'fault', 'run_as'):
+            if k_ in d:
+                j[k_] = d[k_]
+        j['argv'] = ['--warc-file', 'w']
+    elif ctx == 'httpwarc':
+        d = G.http_warc_classes()[cls]
+        j.update(data=d['data'], close=d['close'], fail=d['fail'], path=d['path'], argv=['--warc-file', 'w'], cuts=None)
+        if 'fault' in d:
+            j['fault'] = d['fault']
     elif ctx == 'httpcont':
         d = G.http_continue_classes()[cls]
         j.update(data=d['data'], close=d['close'], fail=d['fail'], path=d['path'], argv=['--continue'], cuts=None,
@@ -364,7 +375,7 @@ def run_http(j):
         path = j.get('path', '/h')
         fail = j.get('fail')
         _prefiles(d, j)
-        if j['ctx'] in ('page', 'httpcont'):
+        if j['ctx'] in ('page', 'httpcont', 'httpwarc'):
             site = X.http_site(path, _latin(j['data']), j.get('close', True), j.get('cuts'), None, fail)
         else:
             site = X.http_site(path, _latin(G.resp()), True, None,
@@ -389,7 +400,7 @@ def run_ftp(j):
     from drivers.crawl_exec import read_rows
     d = tempfile.mkdtemp(prefix='c09f_')
     try:
-        ctx = j['ctx']
+        ctx = j.get('run_as') or j['ctx']
         files = {'a.txt': b'aaa', 'h.txt': b'hhh', 'c.txt': b'ccc'}
         dirs = ()
         start = ['ftp://f.test/']
